@@ -38,9 +38,12 @@ def register(R: Registry):
         S.assume(z3.And(WF(x0.z), born(x0.z) <= 0))
 
         def step(E, recv, args, kwargs):
-            """ASSUMED contract of a member transform = the single-step clauses proved for the library's operations:
-            on a well-formed tree it returns a well-formed tree that is either its argument itself (Identity) or lives in storage
-            allocated during the call; nothing that existed before the call is written"""
+            """single-step contract of a member transform: on a well-formed tree it returns a well-formed tree that is either its
+            argument itself (Identity) or lives in storage allocated during the call; nothing that existed before the call is written.
+            It is ASSUMED here for an arbitrary member and DISCHARGED for the library's operations by the obligations
+            `<operation>/post/step/...` (section "step contract, concretely" below: WFtree(h) is WF of the tree behind h, born(h) > now is
+            "tree object, ndata dict and every column allocated during the call", stamp unchanged is "every input tree as at entry");
+            a member that is itself a Transforms satisfies it by this very theorem (and Transforms.__init__ splices such members)"""
             (x,) = args
             xz = to_z3(x, "int")
             now = to_z3(G.fields["now"], "int")
@@ -50,8 +53,10 @@ def register(R: Registry):
             E.assume(z3.And(WF(y.z), z3.Or(y.z == xz, born(y.z) > now)))
             E.assume(z3.ForAll([h], z3.Implies(born(h) <= now, stamp(h, now + 1) == stamp(h, now))))
             G.fields["now"] = Sym(now + 1, "int")
-            E.assumptions.add("assumed step contract of a member transform (what C05/C06/C07/C12/C16 prove per operation): result well formed, "
-                              "argument itself or freshly allocated, nothing older written")
+            E.assumptions.add("step contract of an abstract member transform (result well formed, argument itself or freshly allocated, nothing older "
+                              "written): assumed for an arbitrary member; discharged per library operation by the obligations <operation>/post/step/* "
+                              "(Identity, Translate/Scale/Rotate/RotateX/RotateY/RotateZ, AffineTransform, TranslateOrigin, Normalizer, RadiusReseter, "
+                              "sort_tree, to_subtree, redirect_tree, cat_tree); the reading of WFtree/born/stamp as predicates of real trees is by definition, not mechanised")
             return y
 
         ts = PList.fresh("ref", name="transforms")
@@ -80,6 +85,29 @@ def register(R: Registry):
           ensures=[post("result-is-well-formed"), post("result-is-the-input-itself-or-shares-no-storage-with-it"), post("input-untouched")],
           loops={0: dict(invariant=[("well-formed-fresh-or-input-and-input-untouched", inv)], modifies=["G"])},
           notes="pipelines of ANY length; member transforms are abstract and satisfy the single-step contract")
+
+    def init_setup(shape):
+        """members: m0..; shape "nested" puts a Transforms([m1, m2]) between m0 and m3"""
+        def f(S):
+            from swcgeom.transforms.base import Identity, Transforms
+
+            m = [S.obj(Identity) for _ in range(4)]
+            inner = S.obj(Transforms, transforms=PList([m[1], m[2]]))
+            args = {"empty": (), "flat": (m[0], m[1], m[2]), "nested": (m[0], inner, m[3]), "only-nested": (inner,)}[shape]
+            want = {"empty": [], "flat": [m[0], m[1], m[2]], "nested": m, "only-nested": [m[1], m[2]]}[shape]
+            return dict(self=S.obj(Transforms), transforms=args, __ghost__=dict(want=want, inner=inner))
+
+        return f
+
+    def flattened(E, v, o):
+        got, want = v["self"].fields.get("transforms"), E.spec_extra["want"]
+        inner = E.spec_extra["inner"]
+        return isinstance(got, PList) and got.items is not None and len(got.items) == len(want) and all(a is b for a, b in zip(got.items, want)) \
+            and got is not inner.fields["transforms"] and len(inner.fields["transforms"].items) == 2
+
+    R.add(f"{BASE}:Transforms.__init__", prop="C03", variants={k: init_setup(k) for k in ("empty", "flat", "nested", "only-nested")},
+          ensures=[("members-in-order-with-nested-pipelines-spliced-in-place-into-a-list-of-its-own", flattened)],
+          notes="a pipeline given as a member contributes its members (one level: its own list was flattened when it was built)")
 
     R.add(f"{BASE}:Identity.__call__", prop="C03", pure_inline=True,
           setup=lambda S: dict(self=S.obj(__import__("swcgeom.transforms.base", fromlist=["x"]).Identity), x=sym_tree(S, "x")),
@@ -265,7 +293,7 @@ def register_geometry(R):
 
     # ---------------------------------------------------------------- Normalizer.__call__
     # what the code does, per column c of x, y, z, r:  c'[i] = (c[i] - min(c)) / max(c)   (max of the ORIGINAL column, not of the shifted
-    # one: the result spans [0, (max - min) / max], which is the unit interval only when min(c) = 0).  Admissible input: max(c) != 0.
+    # one: the result spans [0, (max - min) / max], which is the unit interval only when min(c) = 0).  A column with max(c) = 0 gives inf / nan (no exception).
     def norm_setup(S):
         x = sym_tree(S, "x")
         g = {}
@@ -276,23 +304,21 @@ def register_geometry(R):
             g[c] = (mn, mx)
         return dict(self=S.obj(G.Normalizer), x=x, __ghost__=dict(ext=g))
 
-    def nondegenerate(E, v, o):
-        return z3.And(*[mx.z != 0 for _, mx in E.spec_extra["ext"].values()])
-
     def normalised(E, v, o):
+        """per column c of x, y, z, r whose maximum is not 0 (numpy divides by zero silently: inf / nan entries, no exception)"""
         x0, y = o["x"], v["result"]
         i = z3.Int(fresh_name("i"))
         out = []
         for c, (mn, mx) in E.spec_extra["ext"].items():
             q, p = z3.Select(col(y, c).arr, i), z3.Select(col(x0, c).arr, i)
-            out.append(z3.And(q == (p - mn.z) / mx.z, q * mx.z == p - mn.z))
+            out.append(z3.Implies(mx.z != 0, z3.And(q == (p - mn.z) / mx.z, q * mx.z == p - mn.z)))
         return z3.ForAll([i], z3.Implies(z3.And(i >= 0, i < nof(x0)), z3.And(*out)))
 
     R.add(f"{GEO}:Normalizer.__call__", prop="C03", setup=norm_setup,
-          requires=[("no-column-of-x-y-z-r-has-maximum-zero", nondegenerate)],
           ensures=[("x-y-z-r-shifted-by-their-minimum-and-divided-by-their-maximum", normalised), ("ids-types-parents-kept", kept(("id", "type", "pid")))]
           + step_clauses(),
-          options=dict(models=ext_C03.MODELS))
+          options=dict(models=ext_C03.MODELS),
+          notes="the step clauses need no admissibility condition: a column with maximum 0 gives inf / nan coordinates, structure and storage are as always")
 
     # ---------------------------------------------------------------- RadiusReseter.__call__
     def rr_setup(S):
@@ -347,6 +373,11 @@ def finalize(R, prop):
     # ---- geometry (C12): ids and parents are never written, the input's depth witness serves the result
     for nm in ("AffineTransform.__call__", "AffineTransform.apply", "TranslateOrigin.transform", "TranslateOrigin.__call__"):
         extend(f"{GEO}:{nm}", "C12")
+    # Translate / Scale / Rotate / RotateX / RotateY / RotateZ: the classmethod X.transform(x, ...) = X(...)(x) runs the constructor and the
+    # inherited AffineTransform.__call__ on the real chain; an instance built beforehand is covered by AffineTransform.__call__ above, whose
+    # precondition `matrix-is-affine` is the postcondition of the same name of every constructor
+    for nm in ("Translate", "Scale", "Rotate", "RotateX", "RotateY", "RotateZ"):
+        extend(f"{GEO}:{nm}.transform", "C12")
 
     # ---- sort_tree (C05): the result's depth witness is the input's own (C05's precondition ghost depth5, over rows) read through the
     # returned index array sigma (new id -> old row); C05's postcondition gives sigma(0) = root row, sigma(pid'[k]) = parent row of sigma(k)
